@@ -19,6 +19,10 @@ import (
 	"github.com/cedar-policy/cedar-go/types"
 	"github.com/cedar-policy/cedar-go/x/exp/ast"
 	"github.com/cedar-policy/cedar-go/x/exp/batch"
+	"github.com/cedar-policy/cedar-go/x/exp/eval"
+	"github.com/cedar-policy/cedar-go/x/exp/schema"
+	"github.com/cedar-policy/cedar-go/x/exp/schema/resolved"
+	"github.com/cedar-policy/cedar-go/x/exp/schema/validate"
 
 	"verifharness/cwf"
 )
@@ -39,10 +43,29 @@ type shared struct {
 	reqs   []types.Request
 	vals   []types.Value
 	breq   batch.Request
+	ibreqs []batch.Request // request templates with an ignored part
+	asts   []*ast.Policy   // the policies as x/exp/ast trees (shared by the "partial" and "validate" operations)
+	schema *schema.Schema
+	rs     *resolved.Schema
 	polsJ  []any
 	storeJ J
 	reqsJ  []any
 }
+
+// policies with several conditions, the earlier ones on parts that the batch templates ignore and the later ones
+// kept: the shapes in which partial evaluation rewrites some conditions of a policy and keeps others
+var craftedPolicies = []string{
+	`permit(principal, action, resource) when { context.n == 1 } when { resource == principal || principal has n };`,
+	`permit(principal, action, resource) when { principal in resource } unless { context has opt } when { action == action };`,
+	`forbid(principal, action, resource) when { context.n == 2 } when { resource has opt };`,
+	`permit(principal, action, resource) when { principal has n && principal.n == 1 } when { context has n } when { [resource, principal].contains(resource) };`,
+	`permit(principal, action, resource) unless { resource has b && resource.b } when { context has s && context.s like "a*" } unless { principal == resource };`,
+}
+
+const sharedSchema = `entity U in [G] { n?: Long, s?: String, b?: Bool, opt?: Long } tags String;
+entity G in [G] { n?: Long, b?: Bool };
+type Ctx = { n?: Long, s?: String, opt?: Long };
+action view, edit appliesTo { principal: [U, G], resource: [U, G], context: Ctx };`
 
 func buildShared(seed int64) *shared {
 	g := newGen(seed, 3)
@@ -61,6 +84,24 @@ func buildShared(seed int64) *shared {
 		s.set.Add(id, cedar.NewPolicyFromAST((*pubast.Policy)(p)))
 		s.ids = append(s.ids, id)
 	}
+	for k, text := range craftedPolicies {
+		var p cedar.Policy
+		if err := p.UnmarshalCedar([]byte(text)); err != nil {
+			panic(harnessError{err})
+		}
+		id := cedar.PolicyID(fmt.Sprintf("c%d", k))
+		s.polsJ = append(s.polsJ, Obj{"id": string(id), "policy": cwf.PolicyToJ((*ast.Policy)(p.AST()))})
+		s.set.Add(id, &p)
+		s.ids = append(s.ids, id)
+	}
+	for _, id := range s.ids {
+		s.asts = append(s.asts, (*ast.Policy)(s.set.Get(id).AST()))
+	}
+	s.schema = &schema.Schema{}
+	if err := s.schema.UnmarshalCedar([]byte(sharedSchema)); err != nil {
+		panic(harnessError{err})
+	}
+	s.rs = must(s.schema.Resolve())
 	for k := 0; k < 6; k++ {
 		env := g.env()
 		env.Store = s.store
@@ -72,8 +113,19 @@ func buildShared(seed int64) *shared {
 		s.vals = append(s.vals, g.value(pick(g, []kind{kSet, kRec, kSet, kStr, kEnt}), 2))
 	}
 	s.breq = batch.Request{Principal: batch.Variable("x"), Action: s.reqs[0].Action, Resource: s.reqs[0].Resource,
-		Context: types.NewRecord(types.RecordMap{"k": batch.Variable("y"), "n": types.Long(1)}),
+		Context:   types.NewRecord(types.RecordMap{"k": batch.Variable("y"), "n": types.Long(1)}),
 		Variables: batch.Variables{"x": []types.Value{g.uid(), g.uid(), g.uid()}, "y": []types.Value{types.Long(1), types.Long(2)}}}
+	vars := batch.Variables{"x": []types.Value{g.uid(), g.uid()}, "y": []types.Value{types.Long(1), types.Long(2)}}
+	ctx := types.NewRecord(types.RecordMap{"n": batch.Variable("y"), "s": types.String("ab")})
+	r0 := s.reqs[0]
+	s.ibreqs = []batch.Request{
+		{Principal: batch.Variable("x"), Action: r0.Action, Resource: r0.Resource, Context: batch.Ignore(), Variables: vars},
+		{Principal: batch.Ignore(), Action: r0.Action, Resource: batch.Variable("x"), Context: ctx, Variables: vars},
+		{Principal: r0.Principal, Action: batch.Ignore(), Resource: batch.Ignore(), Context: ctx, Variables: vars},
+		{Principal: r0.Principal, Action: r0.Action, Resource: r0.Resource, Context: batch.Ignore()},
+		{Principal: batch.Variable("x"), Action: r0.Action, Resource: batch.Ignore(),
+			Context: types.NewRecord(types.RecordMap{"n": batch.Ignore(), "s": types.String("ab")}), Variables: vars},
+	}
 	return s
 }
 
@@ -83,7 +135,8 @@ type opCall struct {
 }
 
 var concKinds = []string{"authorize", "isauthorized", "batch", "set_marshalcedar", "set_marshaljson", "policy_marshalcedar",
-	"policy_marshaljson", "get_all_map", "value_ops", "entities_json", "policy_accessors"}
+	"policy_marshaljson", "get_all_map", "value_ops", "entities_json", "policy_accessors", "batch_ignore", "partial", "validate",
+	"schema_ops"}
 
 func digest(parts ...string) string {
 	sum := sha256.Sum256([]byte(strings.Join(parts, "\x1f")))
@@ -123,6 +176,69 @@ func (s *shared) perform(c opCall) (obs J) {
 		})
 		sort.Strings(keys)
 		return Obj{"d": digest(fmt.Sprint(err), strings.Join(keys, "\n"))}
+	case "batch_ignore":
+		var keys []string
+		err := batch.Authorize(context.Background(), s.set, s.store, s.ibreqs[c.Arg%len(s.ibreqs)], func(r batch.Result) error {
+			rs := []string{}
+			for _, x := range r.Diagnostic.Reasons {
+				rs = append(rs, string(x.PolicyID))
+			}
+			sort.Strings(rs)
+			keys = append(keys, fmt.Sprintf("%v|%v|%v|%v|%v", r.Request.Principal, r.Request.Resource, r.Request.Context, r.Decision, rs))
+			return nil
+		})
+		sort.Strings(keys)
+		return Obj{"d": digest(fmt.Sprint(err), strings.Join(keys, "\n"))}
+	case "partial":
+		// the policy trees themselves (not copies) under environments with unknown and ignored parts
+		p := s.asts[c.Arg%len(s.asts)]
+		r0 := s.reqs[(c.Arg/len(s.asts))%len(s.reqs)]
+		env := eval.Env{Entities: s.store, Principal: r0.Principal, Action: r0.Action, Resource: r0.Resource, Context: r0.Context}
+		switch (c.Arg / 7) % 5 {
+		case 0:
+			env.Context = batch.Ignore()
+		case 1:
+			env.Principal = batch.Ignore()
+		case 2:
+			env.Principal, env.Context = eval.Variable("x"), batch.Ignore()
+		case 3:
+			env.Resource = eval.Variable("x")
+		default:
+			env.Context = types.NewRecord(types.RecordMap{"n": batch.Ignore(), "s": eval.Variable("y")})
+		}
+		res, keep := eval.PartialPolicy(env, p)
+		if !keep || res == nil {
+			return Obj{"d": digest(fmt.Sprint(keep, res == nil))}
+		}
+		return Obj{"d": digest("kept", cwf.Canon(cwf.PolicyToJ((*ast.Policy)(res))))}
+	case "validate":
+		opt := validate.WithStrict()
+		if c.Arg%2 == 1 {
+			opt = validate.WithPermissive()
+		}
+		v := validate.New(s.rs, opt)
+		k := (c.Arg / 2) % (len(s.asts) + 2)
+		switch {
+		case k < len(s.asts):
+			return Obj{"d": digest(errLines(v.Policy(string(s.ids[k]), s.asts[k])))}
+		case k == len(s.asts):
+			// the first finding in map order is reported: accept / reject is the result
+			return Obj{"d": digest(fmt.Sprint(v.Entities(s.store) == nil))}
+		default:
+			return Obj{"d": digest(fmt.Sprint(v.Request(s.reqs[c.Arg%len(s.reqs)]) == nil))}
+		}
+	case "schema_ops":
+		switch c.Arg % 3 {
+		case 0:
+			b, err := s.schema.MarshalCedar()
+			return Obj{"d": digest(string(b), fmt.Sprint(err))}
+		case 1:
+			b, err := s.schema.MarshalJSON()
+			return Obj{"d": digest(string(b), fmt.Sprint(err))}
+		default:
+			r, err := s.schema.Resolve()
+			return Obj{"d": digest(deepDigest(r), fmt.Sprint(err))}
+		}
 	case "set_marshalcedar":
 		return Obj{"d": digest(string(s.set.MarshalCedar()))}
 	case "set_marshaljson":
@@ -164,6 +280,17 @@ func (s *shared) perform(c opCall) (obs J) {
 		return Obj{"d": digest(fmt.Sprint(p.Effect(), p.Position(), p.Annotations()), cwf.Canon(cwf.PolicyToJ((*ast.Policy)(p.AST()))))}
 	}
 	panic(harnessError{fmt.Errorf("concurrent: unknown kind %s", c.Kind)})
+}
+
+// errLines: the findings of a validation as a sorted list -- their order follows map iteration (a call run alone
+// returns them in either order), their set is the result
+func errLines(err error) string {
+	if err == nil {
+		return "ok"
+	}
+	ls := strings.Split(err.Error(), "\n")
+	sort.Strings(ls)
+	return strings.Join(ls, "\n")
 }
 
 // deep structural snapshot of every shared input: reflection walk over exported and
@@ -259,7 +386,7 @@ func keyRepr(k reflect.Value) string {
 }
 
 func (s *shared) snapshot() string {
-	return deepDigest(s.set, s.store, s.reqs, s.vals, s.breq)
+	return deepDigest(s.set, s.store, s.reqs, s.vals, s.breq, s.ibreqs, s.schema, s.rs)
 }
 
 func cmdConcurrent(args []string) {
